@@ -374,6 +374,9 @@ pub struct Interp<'a> {
     effects: u64,
     /// cut the run short right before effect number `effect_limit` (0-based) would happen
     pub effect_limit: Option<u64>,
+    /// what the interactive prompt shows for the last line run by `line`: Some(text) ("" for null) when the
+    /// line's value is specified
+    pub last_shown: Option<String>,
     pub quirks: Quirks,
     literal_pool: HashMap<String, Rc<RefCell<String>>>,
     /// statistics: which (U1/U2) reads of unbound declarations happened
@@ -423,6 +426,7 @@ impl<'a> Interp<'a> {
             depth: 0,
             effects: 0,
             effect_limit: None,
+            last_shown: None,
             quirks: Quirks::default(),
             literal_pool: HashMap::new(),
             max_depth: 0,
@@ -446,6 +450,7 @@ impl<'a> Interp<'a> {
     /// A line that fails before running contributes nothing, not even its declarations.
     pub fn line(&mut self, ast: &'a [Stmt]) -> ModelOutcome {
         self.out.clear();
+        self.last_shown = None;
         self.fuel = model_fuel();
         self.depth = 0;
         self.effects = 0;
@@ -490,7 +495,10 @@ impl<'a> Interp<'a> {
         }
         match last {
             V::Residue => Ok(None), // U4
-            v => Ok(Some(render(&v))),
+            v => {
+                self.last_shown = display(&v).ok();
+                Ok(Some(render(&v)))
+            }
         }
     }
 
